@@ -211,6 +211,12 @@ func (c *Ctx) ruleNilGuardClosures(rule string, floor int) {
 					if !ok || i >= len(x.Lhs) {
 						continue
 					}
+					// oi.which = func(p pointer) …: accessor stored into a table field
+					if se, ok := x.Lhs[i].(*ast.SelectorExpr); ok && (se.Sel.Name == "has" || se.Sel.Name == "get" || se.Sel.Name == "which") {
+						k++
+						checkLit(fi, fi.Key+" "+se.Sel.Name+" closure#"+itoa(k), fl)
+						continue
+					}
 					lid, ok := x.Lhs[i].(*ast.Ident)
 					if !ok || !strings.Contains(strings.ToLower(lid.Name), "getter") {
 						continue
